@@ -19,7 +19,7 @@ NAMES = {"info": [("composeinfo.json", "composeinfo")],
          "images": [("images.json", "images"), ("image-manifest.json", "images")],
          "rpms": [("rpms.json", "rpms"), ("rpm-manifest.json", "rpms")],
          "modules": [("modules.json", "modules")]}
-DAMAGES = ["torn", "garbage", "nonutf8", "empty", "bad-constraint", "missing-key"]
+DAMAGES = ["torn", "garbage", "nonutf8", "empty", "bad-constraint", "missing-key", "bom", "utf16"]
 
 
 def generate(rng, tier, idx):
@@ -64,7 +64,12 @@ def generate(rng, tier, idx):
     for f in subset(rng, ["STATUS", "COMPOSE_ID", "metadata.txt"], 0, 2):
         ops.append({"op": "cd_touch", "path": "%s/%s" % (root, f)})
     given = root + ("/" if rng.random() < 0.4 else "")
-    ops.append({"op": "cd_open", "path": given, "repeat": rng.randint(1, 4)})
+    opener = {"op": "cd_open", "path": given, "repeat": rng.randint(1, 4)}
+    cwd = None
+    if rng.random() < 0.15:
+        cwd = root.rsplit("/", 1)[0]
+        opener["relative"] = pick(rng, ["bare", "dot"])
+    ops.append(opener)
     # which base will be used is decided by the machine; accesses + disturbances
     for _ in range(rng.randint(3, 12)):
         r = rng.random()
@@ -82,4 +87,7 @@ def generate(rng, tier, idx):
             put(bases[lay], attr, rng.randrange(len(NAMES[attr])), pick(rng, DAMAGES) if rng.random() < 0.3 else None)
         if rng.random() < 0.1:
             ops.append({"op": "cd_open", "path": given, "repeat": 2})
-    return {"machine": "M-CD", "cfg": {"listdir": pick(rng, ["shuffle", "shuffle", "reverse", "sorted"])}, "ops": ops}
+    cfg = {"listdir": pick(rng, ["shuffle", "shuffle", "reverse", "sorted"])}
+    if cwd:
+        cfg["cwd"] = cwd
+    return {"machine": "M-CD", "cfg": cfg, "ops": ops}
